@@ -22,6 +22,7 @@ func init() {
 		Explanation: "Decides the literal-codec clause and two sibling-agreement clauses: (R-CODEC) the lexer's string rule is 'raw text up to the next quote': the call closure of lex contains no unescaping callee (strconv.Unquote*); therefore the closure of Dump must contain no escaping callee (strconv.Quote*, AppendQuote*, a %q verb) — and conversely; a writer that escapes for a reader that does not unescape cannot round-trip any literal containing a backslash, a line break or a tab, all of which the lexer accepts; " +
 			"(R-LEAFTYPES) dumpLeafNode has a case for every static type of value the parser puts into constant nodes (string, []string, []int64; int64 and bool through the default) and prints it in a form the prefix lexer/parser accepts: a string between two double quotes with nothing else added, lists between ( and ) with elements separated by a space rune, integers in base 10, variables by their name; " +
 			"(R-IFLAYOUT) the positions Dump selects among the program-ordered children of an `if` node (condition, true branch, false branch) are consistent with the order in which calAndSetNodes emits the four children (condition, true branch, fi, false branch): selecting position k must yield source child 0, 1, 2; (R-DUMPSKIP) the child enumeration excludes event nodes (as in C12); (R-DUMPROOT) the printed tree starts at the node whose parent index is -1 and every non-leaf is printed as ( name children… ). " +
+			"(R-EVREMAP) calAndSetEventNode rebuilds node array and parent table entry by entry in step (an event node mirrors its real node), records every appended node's position in the index table keyed by its original index, and relabels scIdx/parents through the right table under the -1 guards: the parent table Dump reads in event mode is an exact relabelling. " +
 			"NOT decided: that the rebuilt text equals the program on every binding (fast-operator layout, folded constants), idempotence of dump/compile.",
 		Run:       runC13,
 		Witnesses: c13Witnesses,
@@ -34,6 +35,7 @@ func runC13(w *World, r *Report) {
 	ruleIfLayout(w, r)
 	ruleDumpSkip(w, r)
 	ruleDumpVerbatim(w, r)
+	ruleEvRemap(w, r)
 }
 
 // ruleDumpVerbatim: text that has been rendered (a leaf, a nested expression)
@@ -567,7 +569,7 @@ func ruleIfLayout(w *World, r *Report) {
 	r.Check(good, rule, w.Pos(dump.Pos()), "Dump/calAndSetNodes", fmt.Sprintf("children emitted in order %v; Dump selects positions %v", order, sel), "position k of the selection is source child k (condition, true branch, false branch)", "Dump picks the wrong children of an `if` node for the layout the compiler emits: branches are swapped or the fi marker is printed")
 }
 
-var c13Witnesses = []Witness{
+var c13Witnesses = append(evRemapWitnesses, []Witness{
 	{Name: "dump-quotes-with-strconv", Rule: "R-CODEC", Edits: []Edit{
 		{File: "util.go", Old: "		res = `\"` + v + `\"`", New: "		res = strconv.Quote(v)"}}},
 	{Name: "dump-list-elements-percent-q", Rule: "R-CODEC", Edits: []Edit{
@@ -590,4 +592,4 @@ var c13Witnesses = []Witness{
 		{File: "util.go", Old: "			sb.WriteString(\"\\n\" + childIndent + cc)", New: "			for _, cs := range strings.Split(cc, \"\\n\") {\n				sb.WriteString(\"\\n\" + childIndent + strings.TrimLeft(cs, \" \"))\n			}"}}},
 	{Name: "benign-string-builder-for-quotes", Benign: true, Edits: []Edit{
 		{File: "util.go", Old: "			sb.WriteString(`\"` + s + `\"`)", New: "			quoted := \"\\\"\" + s + \"\\\"\"\n			sb.WriteString(quoted)"}}},
-}
+}...)
